@@ -24,8 +24,22 @@ def scratch_root():
     return _scratch
 
 
+import threading
+_cfg_lock = threading.Lock()
+
+
 def configure():
-    """returns {'dir': build dir, 'flags': {abs source file: [clang flags]}}"""
+    """returns {'dir': build dir, 'flags': {abs source file: [clang flags]}}; thread-safe (units prefetch ASTs in parallel:
+    two concurrent first calls used to run cmake twice into the same directory, and a clang that read the half-written
+    qxmpp_export.h produced an AST full of error-recovery nodes)"""
+    global _cfg
+    if _cfg:
+        return _cfg
+    with _cfg_lock:
+        return _configure_locked()
+
+
+def _configure_locked():
     global _cfg
     if _cfg:
         return _cfg
